@@ -69,7 +69,7 @@ def _check_dropped(text, rule, allowed_macros=None, allow_assign=False):
         # assignments other than `let`
         for mm in re.finditer(r"(?<![=!<>+\-*/%&|^])=(?![=>])", mt):
             st = _stmt_start(mt, mm.start())
-            if not mt[st:mm.start()].lstrip().startswith("let"):
+            if not re.search(r"\blet\b", mt[st:mm.start()]):
                 # named macro args like `from = ?x` are inside macro parens: allow inside (...) of a macro
                 pre = mt[:mm.start()]
                 # find innermost open paren
